@@ -251,6 +251,8 @@ def _run_main(ctx):
             ctx.count("pattern_%s" % pattern)
             for f, sh in shapes.items():
                 d = dt
+                if kind == "Affine" and f == "bias" and rng.random() < 0.5:
+                    d = rng.choice(["<f8", "<f4", "<f2", "<i8", "<c16"])      # the bias has a dtype of its own
                 if kind in ("SumPool2d", "AvgPool2d") and np.dtype(dt).kind not in "iu":
                     d = ["|i1", "<i2", "<i4", "<i8", "|u1", "<u2", "<u4", "<u8"][(DTYPES.index(dt) + rank) % 8]
                 if kind == "CubaLIF" and np.dtype(dt).kind not in "fc":
@@ -358,6 +360,64 @@ def _run_main(ctx):
                                     observed={"dtype": str(a.dtype), "first": a.reshape(-1)[:4].tolist()},
                                     required={"dtype": str(want.dtype), "first": want.reshape(-1)[:4].tolist()})
                         break
+        # two fields of one node in different precisions (a float32 / float16 weight next to a float64 bias holding values
+        # the narrower type cannot represent): each comes back in its own dtype
+        import nir
+        for wdt, bdt in (("<f4", "<f8"), ("<f2", "<f8"), ("<f2", "<f4"), ("<f8", "<f4"), ("<f4", "<c16"), ("<i2", "<f8")):
+            m_, n_ = rng.randrange(1, 4), rng.randrange(1, 4)
+            w = (np.arange(m_ * n_).reshape(m_, n_) / 8).astype(wdt)
+            bvals = np.array([rng.choice([0.1, 1e-300, 1 / 3, 1e300, 16777217.0]) for _ in range(m_)]).astype(bdt)
+            case = {"op": "bits_mixed_precision", "weight": wdt, "bias": bdt}
+            ctx.case(case); ctx.count("mixed_precision_affine")
+            try:
+                g0 = nir.NIRGraph(nodes={"n": nir.Affine(weight=w, bias=bvals)}, edges=[])
+                outs = {"file": roundtrip(g0, rng.choice(["str", "bytesio"]), tmpdir), "dict": ("ok", nir.NIRGraph.from_dict(g0.to_dict()))}
+            except Exception as e:  # noqa
+                ctx.violate(case, "Affine with weight and bias of different precision: round trip raised",
+                            {"site": "roundtrip", "what": "raised"}, observed=err_name(e)); continue
+            for how, (status, res) in outs.items():
+                if status != "ok":
+                    continue
+                for fld, want in (("weight", w), ("bias", bvals)):
+                    a = np.asarray(getattr(res.nodes["n"], fld))
+                    if a.dtype != want.dtype or a.shape != want.shape or a.tobytes() != want.tobytes():
+                        ctx.violate(case, f"array parameter Affine.{fld} not read back bit-for-bit ({how} round trip; weight {wdt}, bias {bdt})",
+                                    {"site": "roundtrip", "what": "dtype" if a.dtype != want.dtype else "bytes", "rank0": False,
+                                     "kind_class": want.dtype.kind}, observed={"dtype": str(a.dtype)}, required={"dtype": str(want.dtype)})
+                        break
+        # rank-0 parameters given as numpy *scalars* of every dtype, and the second generation (write, read, write,
+        # read: what a tool that loads, edits metadata and saves does) - dtype and bytes stay what they were
+        for dt0 in DTYPES:
+            if np.dtype(dt0).kind not in "fiuc" or np.dtype(dt0).byteorder == ">":
+                continue
+            val = np.frombuffer(bytes.fromhex(arr_recipe(rng, [], dt0, None, True, None)["x"]), dtype=dt0)[0]
+            kind0 = rng.choice(["Scale", "Threshold", "Delay", "I"])
+            fld = {"Scale": "scale", "Threshold": "threshold", "Delay": "delay", "I": "r"}[kind0]
+            as_scalar = rng.random() < 0.5
+            case = {"op": "bits_rank0_generations", "dtype": dt0, "kind": kind0, "numpy_scalar": as_scalar}
+            ctx.case(case); ctx.count("rank0_generations")
+            try:
+                node = getattr(nir, kind0)(**{fld: (val if as_scalar else np.array(val))})
+                g0 = nir.NIRGraph(nodes={"n": node}, edges=[])
+            except Exception:
+                ctx.count("construct_rejected"); continue
+            want = (np.asarray(val).dtype, np.asarray(val).tobytes())
+            cur = g0
+            for gen_no in (1, 2):
+                status, res = roundtrip(cur, rng.choice(["str", "bytesio"]), tmpdir)
+                if status == "write-rejected":
+                    break
+                if status != "ok":
+                    ctx.violate(case, "write accepted the parameters but read raised", {"site": "read", "what": "raised"},
+                                observed=err_name(res)); break
+                a = np.asarray(getattr(res.nodes["n"], fld))
+                if (a.dtype, a.tobytes()) != want or a.shape != ():
+                    ctx.violate({**case, "generation": gen_no}, f"rank-0 parameter {kind0}.{fld} not read back bit-for-bit "
+                                f"(generation {gen_no})", {"site": "roundtrip", "what": "dtype" if a.dtype != want[0] else "bytes",
+                                                           "rank0": True, "kind_class": want[0].kind},
+                                observed={"dtype": str(a.dtype), "shape": list(a.shape)}, required={"dtype": str(want[0]), "shape": []})
+                    break
+                cur = res
         big_and_twins(ctx, tmpdir)
         rewrites(ctx, tmpdir)
         ctx.compare("files", cases, obs, reqs)
